@@ -112,6 +112,8 @@ struct Meter
    {
       g_meterOn = false;
       const double dt = cpu_now()-t0;
+      static const bool showMeter = (getenv("C02_METER") != NULL);
+      if (showMeter) orc << "# " << k << " meter " << what << " peak=" << g_peak << " refused=" << g_refused << " len=" << len << "\n";
       if (allocClause)
       {
          if (g_refused > 0)      orc << k << " ORACLE FAIL alloc " << what << ": one request exceeds K*len+C (request=" << g_refused << " len=" << len << " budget=" << g_budget << ")\n";
